@@ -1,110 +1,3 @@
-// Kani harnesses for spill/spill_pool.rs (property C16, exit-path part): after EVERY return of
-// SpillPoolSink::push_batch -- success or failure of any I/O step -- the file it worked on is
-// either back in `open_write_files` or marked `writer_finished`; otherwise nobody would ever
-// finish it and the reader would wait for it forever.
+// (no registered harnesses: see /verif/attempts and DESIGN.md section 9.4)
 #[allow(unused_qualifications, unused_imports, dead_code, clippy::all)]
-mod verif_kani {
-    use super::*;
-    use crate::spill::in_progress_spill_file::verif_kani::{forged_in_progress, forged_manager, stub_append_batch, stub_finish, stub_flush};
-    use std::mem::MaybeUninit;
-
-    fn stub_lock_slow(_m: &parking_lot::RawMutex, _t: Option<std::time::Instant>) -> bool { kani::assume(false); true }
-    fn stub_unlock_slow(_m: &parking_lot::RawMutex, _f: bool) { kani::assume(false); }
-    fn stub_create(_m: &SpillManager, _msg: &str) -> Result<InProgressSpillFile> {
-        if kani::any() { Ok(forged_in_progress(&forged_manager())) } else { Err(datafusion_common::DataFusionError::Internal(String::new())) }
-    }
-    fn stub_num_rows(_b: &RecordBatch) -> usize { kani::any() }
-    fn stub_mem_size(_b: &RecordBatch) -> usize { kani::any() }
-
-    fn new_file(mgr: &Arc<SpillManager>, finished: bool) -> Arc<Mutex<ActiveSpillFileShared>> {
-        Arc::new(Mutex::new(ActiveSpillFileShared {
-            writer: if finished { None } else { Some(forged_in_progress(mgr)) },
-            file: None,
-            batches_written: kani::any(),
-            estimated_size: kani::any(),
-            writer_finished: finished,
-            waker: None,
-        }))
-    }
-
-    /// push_batch on a pool that has one open write file
-    #[kani::proof]
-    #[kani::unwind(4)]
-    #[kani::stub(parking_lot::RawMutex::lock_slow, stub_lock_slow)]
-    #[kani::stub(parking_lot::RawMutex::unlock_slow, stub_unlock_slow)]
-    #[kani::stub(arrow::array::RecordBatch::num_rows, stub_num_rows)]
-    #[kani::stub(arrow::array::RecordBatch::get_array_memory_size, stub_mem_size)]
-    #[kani::stub(crate::spill::in_progress_spill_file::InProgressSpillFile::append_batch, stub_append_batch)]
-    #[kani::stub(crate::spill::in_progress_spill_file::InProgressSpillFile::flush, stub_flush)]
-    #[kani::stub(crate::spill::in_progress_spill_file::InProgressSpillFile::finish, stub_finish)]
-    #[kani::stub(crate::spill::spill_manager::SpillManager::create_in_progress_file, stub_create)]
-    fn c16_push_batch_existing_file_exit_paths() {
-        let mgr = forged_manager();
-        let file = new_file(&mgr, false);
-        { let mut f = file.lock(); kani::assume(f.estimated_size <= usize::MAX / 2 && f.batches_written <= usize::MAX / 2); }
-        let w0 = file.lock().batches_written;
-        let mut files = VecDeque::new();
-        files.push_back(Arc::clone(&file));
-        let mut open = VecDeque::new();
-        open.push_back(Arc::clone(&file));
-        let shared = Arc::new(Mutex::new(SpillPoolShared {
-            files, spill_manager: Arc::clone(&mgr), waker: None, open_write_files: open, remaining_writer_count: 1,
-        }));
-        let sink = SpillPoolSink { max_file_size_bytes: kani::any(), shared: Arc::clone(&shared) };
-        let raw: MaybeUninit<RecordBatch> = MaybeUninit::uninit();
-        let batch: &RecordBatch = unsafe { &*raw.as_ptr() }; // only reached through the two stubbed accessors
-        let res = sink.push_batch(batch);
-        let ok = res.is_ok();
-        std::mem::forget(res);
-        let requeued = shared.lock().open_write_files.len() == 1;
-        let (finished, has_writer, w1) = { let f = file.lock(); (f.writer_finished, f.writer.is_some(), f.batches_written) };
-        // exit-path postcondition (both for Ok and for Err)
-        assert!(requeued || finished, "C16.push_batch.file_requeued_or_finished_on_every_exit");
-        assert!(!(requeued && finished), "C16.push_batch.finished_file_not_requeued");
-        assert!(requeued == has_writer || !ok, "C16.push_batch.requeued_file_keeps_its_writer");
-        assert!(shared.lock().files.len() == 1, "C16.push_batch.file_stays_visible_to_the_reader");
-        if ok { assert!(w1 == w0 + 1 || w1 == w0, "C16.push_batch.ok_counts_at_most_one_batch"); }
-        else { assert!(w1 == w0, "C16.push_batch.err_counts_no_batch"); }
-        kani::cover!(ok && requeued);
-        kani::cover!(ok && finished);
-        kani::cover!(!ok);
-        std::mem::forget(sink);
-        std::mem::forget(shared);
-        std::mem::forget(file);
-    }
-
-    /// the last writer going away finishes every file that is still open for writing
-    #[kani::proof]
-    #[kani::unwind(4)]
-    #[kani::stub(parking_lot::RawMutex::lock_slow, stub_lock_slow)]
-    #[kani::stub(parking_lot::RawMutex::unlock_slow, stub_unlock_slow)]
-    #[kani::stub(crate::spill::in_progress_spill_file::InProgressSpillFile::finish, stub_finish)]
-    fn c16_last_writer_drop_finishes_open_files() {
-        let mgr = forged_manager();
-        let file = new_file(&mgr, false);
-        let mut files = VecDeque::new();
-        files.push_back(Arc::clone(&file));
-        let mut open = VecDeque::new();
-        let is_open: bool = kani::any();
-        if is_open { open.push_back(Arc::clone(&file)); } else { let mut f = file.lock(); f.writer_finished = true; std::mem::forget(f.writer.take()); }
-        let writers: usize = kani::any();
-        kani::assume(writers >= 1 && writers <= 3);
-        let shared = Arc::new(Mutex::new(SpillPoolShared {
-            files, spill_manager: Arc::clone(&mgr), waker: None, open_write_files: open, remaining_writer_count: writers,
-        }));
-        let sink = SpillPoolSink { max_file_size_bytes: 0, shared: Arc::clone(&shared) };
-        drop(sink);
-        let remaining = shared.lock().remaining_writer_count;
-        assert!(remaining == writers - 1, "C16.drop.counts_down_by_one");
-        if remaining == 0 {
-            assert!(file.lock().writer_finished, "C16.drop.last_writer_finishes_every_open_file");
-            assert!(shared.lock().open_write_files.is_empty(), "C16.drop.no_open_write_file_left");
-        } else if is_open {
-            assert!(!file.lock().writer_finished && shared.lock().open_write_files.len() == 1, "C16.drop.other_writers_keep_the_file_open");
-        }
-        kani::cover!(remaining == 0 && is_open);
-        kani::cover!(remaining > 0);
-        std::mem::forget(shared);
-        std::mem::forget(file);
-    }
-}
+mod verif_kani {}
